@@ -34,6 +34,15 @@ def run(tier):
                              Horizon=40, Grace=20, Deviations='{"PostFailureSilent"}'),
              invariants=['C08_PostFailureEndsConnectionRaw'],
              expect='C08_PostFailureEndsConnectionRaw'),
+        dict(name='NEG packets of a poll response handled after the connection ended (repaired '
+                  'defect F24)',
+             consts=K.consts(Alpha=A('connect', 'poll', 'reply', 'disconnect'), MaxReq=4,
+                             Deviations='{"ReadLoopIgnoresState"}'),
+             invariants=['C08_NothingReceivedAfterEnd'], expect='C08_NothingReceivedAfterEnd'),
+        dict(name='NEG disconnect() while a POST is in flight never sends CLOSE (repaired defect F25)',
+             consts=K.consts(Alpha=A('connect', 'poll', 'reply', 'send', 'disconnect'), MaxReq=5,
+                             Deviations='{"WriteLoopDropsQueued"}'),
+             invariants=['C08_NothingLeftQueuedRaw'], expect='C08_NothingLeftQueuedRaw'),
     ]
     K.run_tlc_jobs(ck, jobs)
     seed = ck.seed
